@@ -33,16 +33,12 @@ class TheCheck(SeqCheck):
                    "the copy primitive of remove_at is extracted from the source by translator/vecprims.py (regex) and trusted as a translator",
                    "sequential behaviour only (lock calls are the business of C13/C14)",
                    "theorems assume fewer than 2^31 elements and `int` indexes",
-                   "element arguments are objsize bytes long; allocation failure is not exercised here (C15: Props/C15Seq.lean, checks/seqoverlay.py)"]
+                   "element arguments are objsize bytes long; allocation failure is exercised here only inside getnext walks (walk-retry stream); the rest is C15 (Props/C15Seq.lean, checks/seqoverlay.py)"]
     exhaustive_note = True
 
     def regenerate(self):
-        from translator import vecprims
-        out = os.path.join(vlib.LEAN, "QlibcModel/Generated/VectorPrims.lean")
-        text = vecprims.render(vecprims.extract(vlib.REPO))
-        if not os.path.exists(out) or open(out).read() != text:
-            open(out, "w").write(text)
-        return [out]
+        from checks.seqcommon import regenerate_vecprims
+        return regenerate_vecprims()
 
     # ------------------------------------------------------------------ generators
     def configs(self):
@@ -118,7 +114,7 @@ class TheCheck(SeqCheck):
         hs = []
         for _ in range(count):
             os_ = rng.choice([1, 2, 3, 4, 8, 17, 64])
-            opt = rng.choice([0, EXACT, LINEAR, DOUBLE, DOUBLE | LINEAR])
+            opt = rng.randrange(16)          # every combination of the four documented option bits
             cap = rng.choice([0, 0, 1, 2, 3, 4, 7])
             h = ["new %d %d %d" % (cap, os_, opt)]
             ideal = seqideal.IdealVec(os_)
@@ -145,13 +141,72 @@ class TheCheck(SeqCheck):
                     op = "clear"
                 elif r < 0.91:
                     op = "addnull %d" % idx
-                elif r < 0.94:
+                elif r < 0.93:
+                    op = "inv"
+                elif r < 0.95:
                     op = "reset"
                 else:
                     op = "next %d" % rng.randrange(2)
                 h.append(op)
                 ideal.apply(op.split())
             hs.append(h)
+        return hs
+
+    # ------------------------------------------------------------------ glue around the modelled core
+    def gen_option_words(self):
+        """constructors with EVERY combination of the documented option bits (THREADSAFE 1, DOUBLE 2,
+        LINEAR 4, EXACT 8; also two words with an undefined bit) x initial capacity 0..2 x element
+        size: filled well beyond the capacity (several forced growths, at both ends and in the middle),
+        emptied through resize(0) and filled again"""
+        hs = []
+        for opt in list(range(16)) + [16, 16 | DOUBLE | LINEAR]:
+            hs.append(["new %d 0 %d" % (opt % 3, opt)])          # element size 0: refused (EINVAL), nothing allocated
+            for cap in (0, 1, 2):
+                for os_ in (1, 3, 8):
+                    new = "new %d %d %d" % (cap, os_, opt)
+                    h = [new, "inv"] + build(os_, cap + 3)
+                    h += ["addfirst " + hexs(elem(os_, 90)), "addat 2 " + hexs(elem(os_, 91)), "addat -1 " + hexs(elem(os_, 92)), "inv"]
+                    h += ["walk 1", "toarray", "popfirst", "removeat 1", "reverse", "resize 0", "inv"] + build(os_, cap + 2)
+                    h += ["resize 1", "addlast " + hexs(elem(os_, 93)), "addlast " + hexs(elem(os_, 94)), "clear", "addlast " + hexs(elem(os_, 95)), "end"]
+                    hs.append(h)
+        return hs
+
+    def gen_invalid(self):
+        """`inv`: every documented-invalid call, toarray without the size pointer, getnext without a
+        cursor, resize to the current capacity, on vectors of every small size"""
+        hs = []
+        for os_, opt, cap in [(1, EXACT, 0), (3, LINEAR, 2), (8, DOUBLE, 1), (2, DOUBLE | LINEAR | 1, 0)]:
+            for n in range(6):
+                hs.append(["new %d %d %d" % (cap, os_, opt)] + build(os_, n) + ["inv", "walk 0", "resize %d" % n, "inv",
+                                                                              "addlast " + hexs(elem(os_, 77)), "inv", "clear", "inv", "end"])
+        return hs
+
+    def gen_walk_retry(self):
+        """getnext with the caller's cursor under an allocation failure in the k-th call (newmem and
+        not), the failed call RETRIED with the same cursor and the walk continued to its end"""
+        hs = []
+        for os_, opt, cap in [(1, EXACT, 0), (3, LINEAR | 1, 2), (8, DOUBLE, 1)]:
+            for n in range(6):
+                for nm in (1, 0):
+                    for k in range(n + 1):
+                        for arm in ("fault 1", "faultfrom 1", "fault 2"):
+                            h = ["new %d %d %d" % (cap, os_, opt)] + build(os_, n) + ["reset"] + ["next %d" % nm] * k
+                            h += [arm, "next %d" % nm] + ["next %d" % nm] * (n + 2 - k)
+                            h += ["reset"]
+                            for _ in range(n + 1):
+                                h += ["fault 1", "next 1", "next 1"]
+                            hs.append(h + ["next 0", "end"])
+        return hs
+
+    def gen_small_glue(self):
+        """toarray / reverse / resize / walk on 0, 1, 2, 3 elements, resize to the element count and
+        to the capacity, for each policy"""
+        hs = []
+        for os_, opt, cap in [(1, EXACT, 0), (2, LINEAR, 1), (5, DOUBLE, 2), (3, 0, 3)]:
+            for n in range(4):
+                b = ["new %d %d %d" % (cap, os_, opt)] + build(os_, n)
+                hs.append(b + ["toarray", "reverse", "toarray", "walk 1", "resize %d" % n, "toarray", "reverse", "resize %d" % (n + 1),
+                               "reverse", "toarray", "resize 0", "toarray", "reverse", "walk 0", "end"])
         return hs
 
     def streams(self):
@@ -164,6 +219,15 @@ class TheCheck(SeqCheck):
         sts.append(Stream("sequences", pack(self.gen_sequences(3 if quick else 4)), history=True,
                           note="all op sequences up to the length bound over 13 ops x 3 policies x capacity 0..2"))
         sts.append(Stream("random", pack(self.gen_random(100 if quick else 1500, 120)), history=True))
+        sts.append(Stream("option-words", pack(self.gen_option_words()), history=True,
+                          note="every combination of the 4 documented option bits (+2 words with an undefined bit) x capacity 0..2 x objsize {1,3,8}, "
+                               "several forced growths, resize(0), refill"))
+        sts.append(Stream("invalid-args", pack(self.gen_invalid()), history=True,
+                          note="inv = every documented-invalid call + toarray(NULL size) + getnext(NULL) + resize to the current capacity, n<=5"))
+        sts.append(Stream("walk-retry", pack(self.gen_walk_retry()), history=True,
+                          note="getnext (newmem and not) failing in the k-th call, retried with the same cursor, walk completed; n<=5"))
+        sts.append(Stream("small-glue", pack(self.gen_small_glue()), history=True,
+                          note="toarray/reverse/resize/walk on 0..3 elements"))
         if not quick:
             # byte sizes beyond 2^31 (2^25+1 elements of 64 bytes is corpus/C10/huge_removeat_int_size.ops)
             sts.append(Stream("huge", ["huge 2049 1048576", "huge 4194305 512", "huge 4099 1048576"], history=False, nomodel=True,
